@@ -324,6 +324,29 @@ def fam_pole_face(ctx, rng):
         if X.region_contains(fb, fh, cq) is True else 0.0
     if clear < best - prec - 1e-9:
         ctx.violation(fam + ':not_optimal', 'pole clearance %r but the face point %r has clearance %r (precision %r)' % (clear, cand, best, prec), desc)
+    # the 2D routine on ONE outline object asked several times (without holes, with these holes, without again, coarser precision):
+    # every answer is the pole of the region it was asked about
+    outline = Polygon2D([P2(p) for p in b]); hpolys = [Polygon2D([P2(q_) for q_ in h]) for h in hs]
+    asks = [(None, prec), (hpolys, prec), (None, prec), (hpolys, 0.05)] if rng.random() < 0.5 else [(hpolys, prec), (None, prec), (hpolys, 0.05)]
+    cand0 = None
+    for i, (hl, pr) in enumerate(asks):
+        try:
+            pq = outline.pole_of_inaccessibility(pr, hl) if hl is not None else outline.pole_of_inaccessibility(pr)
+        except Exception as e:
+            ctx.violation('pole.polygon2d.repeated:raises', '%r' % (e,), desc); return
+        pq_ = X.fpt(pq); hh = fh if hl is not None else []
+        if X.region_contains(fb, hh, pq_) is not True:
+            ctx.violation('pole.polygon2d.repeated:outside', 'call %d (%s holes, precision %r) on the same outline returned %r, not a point of that region' % (
+                i + 1, 'with' if hl is not None else 'without', pr, pq), desc); return
+        cl = math.sqrt(float(min([X.sqdist_to_boundary(fb, pq_)] + [X.sqdist_to_boundary(h, pq_) for h in hh])))
+        if hl is None:
+            cand0 = cand0 or best_interior_point(b, 1e-3)
+            ref = math.sqrt(float(X.sqdist_to_boundary(fb, X.fpt(cand0))))
+        else:
+            ref = best
+        if cl < ref - pr - 1e-9:
+            ctx.violation('pole.polygon2d.repeated:not_optimal', 'call %d (%s holes, precision %r) on the same outline: clearance %r, a point with %r exists' % (
+                i + 1, 'with' if hl is not None else 'without', pr, cl, ref), desc); return
 
 
 def best_interior_point(pts, eps, holes=()):
